@@ -34,6 +34,11 @@ pub struct Plan {
     /// Scheduling points (`coroutine.yield()`) before a Lua block's script returns, by token.
     #[serde(default)]
     pub lua_yields: BTreeMap<String, u32>,
+    /// Scheduling points at the top level of a script file (after its definitions), by script
+    /// path: every block task that loads the script yields this many times before it looks up
+    /// `validate`.
+    #[serde(default)]
+    pub lua_load_yields: BTreeMap<String, u32>,
     /// Busy-loop length (x1000 iterations) per Lua token; level B's stand-in for yields.
     #[serde(default)]
     pub lua_busy: BTreeMap<String, u32>,
@@ -248,7 +253,8 @@ pub fn execute(world: &World, plan: &Plan, judgement: &Judgement, scratch: &Path
 
     // ---- scripts (real files: check-lua reads them with std::fs, there is no seam)
     for s in &world.scripts {
-        lua::write_script(scratch, s, &plan.lua_yields, &plan.lua_busy).expect("write script");
+        let ly = plan.lua_load_yields.get(&s.path).copied().unwrap_or(0);
+        lua::write_script(scratch, s, &plan.lua_yields, &plan.lua_busy, ly).expect("write script");
     }
     let _ = std::fs::create_dir_all(scratch.join("lua"));
 
